@@ -167,14 +167,32 @@ pub fn boundary(n: usize) -> Vec<B> {
 const EXT8: [u8; 8] = [0x00, 0x01, 0x7f, 0x80, 0xfe, 0xff, 0x55, 0xaa];
 
 /// a value whose digits (at granularity g bytes) are drawn from extreme values: 0, 1, MAX, MAX-1,
-/// half, half-1, or random.  This makes rare carry / quotient-correction cases common.
+/// half, half-1, a run of ones at the bottom or the top of the digit (MAX >> k, MAX << k), or random.  This makes rare carry / quotient-correction cases common.
 pub fn extreme(r: &mut Rng, n: usize) -> B {
     let g = *r.pick(&[1usize, 1, 2, 4, 8]);
     let mut v = vec![0u8; n];
     let mut i = 0;
     while i < n {
         let len = g.min(n - i);
-        let c = r.below(8);
+        let c = r.below(10);
+        if c >= 8 {
+            // a run of ones inside the digit: MAX >> k (c = 8) or MAX << k (c = 9) for a random k
+            let m = r.below(8 * len as u64 + 1) as usize; // number of one bits
+            for j in 0..len {
+                let lo = 8 * j;
+                let bits_here = if c == 8 {
+                    // ones in positions [0, m)
+                    if m >= lo + 8 { 0xffu32 } else if m > lo { (1u32 << (m - lo)) - 1 } else { 0 }
+                } else {
+                    // ones in positions [8*len - m, 8*len)
+                    let start = 8 * len - m;
+                    if start <= lo { 0xffu32 } else if start < lo + 8 { (0xffu32 << (start - lo)) & 0xff } else { 0 }
+                };
+                v[i + j] = bits_here as u8;
+            }
+            i += len;
+            continue;
+        }
         for j in 0..len {
             let top = j == len - 1;
             let bot = j == 0;
@@ -231,18 +249,83 @@ pub fn random(r: &mut Rng, n: usize) -> B {
     r.bytes(n)
 }
 
+/// every digit (at granularity g bytes) a run of ones at the bottom or the top of the digit (MAX >> k, MAX << k):
+/// quotient-digit estimates made from half digits or top digits are wrong, and corrected, unusually often
+pub fn runs(r: &mut Rng, n: usize, g: usize) -> B {
+    let mut v = vec![0u8; n];
+    let mut i = 0;
+    while i < n {
+        let len = g.min(n - i);
+        let m = r.below(8 * len as u64 + 1) as usize;
+        let low = r.below(2) == 0;
+        for j in 0..len {
+            let lo = 8 * j;
+            let b = if low {
+                if m >= lo + 8 { 0xffu32 } else if m > lo { (1u32 << (m - lo)) - 1 } else { 0 }
+            } else {
+                let start = 8 * len - m;
+                if start <= lo { 0xffu32 } else if start < lo + 8 { (0xffu32 << (start - lo)) & 0xff } else { 0 }
+            };
+            v[i + j] = b as u8;
+        }
+        i += len;
+    }
+    v
+}
+
+/// a non-negative value with exactly `bits` significant bits (0 < bits <= 8n) and a random mantissa
+pub fn with_bits(r: &mut Rng, n: usize, bits: usize) -> B {
+    let mut v = r.bytes(n);
+    let top = bits - 1;
+    for k in 0..n {
+        if 8 * k > top {
+            v[k] = 0;
+        }
+    }
+    let keep = (top % 8) as u32;
+    v[top / 8] &= ((1u32 << (keep + 1)) - 1) as u8;
+    v[top / 8] |= 1 << keep;
+    v
+}
+
+/// operand pairs related through their BIT LENGTHS rather than their values: len(a) + len(b) in
+/// {total - 1, total, total + 1} for the given total, with len(a) at the structural points (half the total,
+/// half +- 1, a digit boundary +- 1, random) and random mantissas -- the places where estimates made from
+/// leading_zeros/bits() are off by one
+pub fn bitlen_pairs(r: &mut Rng, n: usize, total: usize, count: usize) -> Vec<(B, B)> {
+    let w = 8 * n;
+    let mut out = Vec::new();
+    let mut ks: Vec<usize> = vec![total / 2, total / 2 + 1, (total / 2).saturating_sub(1), 1, 2, 8, 9, 63, 64, 65];
+    while ks.len() < count {
+        ks.push(1 + r.below(w as u64) as usize);
+    }
+    for (i, k) in ks.into_iter().enumerate() {
+        let t = total + 1 - (i % 3); // total + 1, total, total - 1
+        if k == 0 || k >= t || k > w || t - k > w || t - k == 0 {
+            continue;
+        }
+        out.push((with_bits(r, n, k), with_bits(r, n, t - k)));
+    }
+    out
+}
+
 /// a mixed draw
 /// digit sequences with internal symmetry, at a random digit granularity: one random digit in every position,
 /// a palindromic digit sequence (digit i == digit N-1-i), or a random value with one digit copied onto another.
 /// (Loops that exchange, compare or combine pairs of digits behave specially when two digits are equal.)
 pub fn repeated(r: &mut Rng, n: usize) -> B {
     let g = *r.pick(&[1usize, 2, 4, 8]);
+    let kind = r.below(3);
+    symmetric(r, n, g, kind)
+}
+/// kind 0: one random g-byte digit in every position; 1: palindromic digit order; 2: one digit copied onto another
+pub fn symmetric(r: &mut Rng, n: usize, g: usize, kind: u64) -> B {
     let mut v = random(r, n);
     let nd = n / g;
     if nd < 2 {
         return v;
     }
-    match r.below(3) {
+    match kind {
         0 => {
             for k in 1..nd {
                 for t in 0..g {
